@@ -332,6 +332,7 @@ pub fn eval_api_inner(c: &ApiCase) -> Outcome {
         lang: c.lang.clone(),
         empty_metadata: c.alias,
         alias_builder: c.alias,
+        reconfig: 0,
     };
     let mut ops = Vec::new();
     let mut prev = 0.0f64;
